@@ -10,6 +10,8 @@ PROP = "C11"
 def key_of(line):
     if line["op"] == "combine":
         return "cache:combine"
+    if line["op"] == "xverify":
+        return "cache:verify:batch-digest"
     s = line["sig"]
     kind = "label" if (s["t"] == "multi" and any(e[0] != e[1] for e in s["e"])) or (s["t"] == "bls" and sorted(s["bits"]) != sorted({e[1] for e in s["e"]})) else "message"
     return "cache:%s:%s" % (line["op"], kind)
